@@ -1,6 +1,7 @@
 """C11 - realign output is exactly-once and in input order under every schedule."""
 
 import itertools
+import os
 
 from hypothesis import strategies as st
 
@@ -88,6 +89,25 @@ def check_output(case, res, text, ref, what):
 def run_case(case):
     with core.workdir() as d:
         ref = reference_output(case, d)
+        if case.get("kind") == "real_many":
+            # many batches with real processes under a lowered open-files limit: resources of finished rounds are released
+            import subprocess
+            import sys as _sys
+
+            core.write_text(d + "/g.gfa", case["gfa"])
+            core.write_text(d + "/in.gaf", "".join(l + "\n" for l in case["gaf"]))
+            core.write_text(d + "/reads.fa", case["fasta"])
+            drv = os.path.join(os.path.dirname(os.path.dirname(os.path.abspath(__file__))), "real_run_driver.py")
+            try:
+                p = subprocess.run([_sys.executable, drv, core.REPO, d, str(case["cores"]), str(case["batch"]), str(case["nofile"])],
+                                   timeout=300, stdout=subprocess.DEVNULL, stderr=subprocess.PIPE)
+            except subprocess.TimeoutExpired:
+                raise RuntimeError("real-process run with many batches did not finish within 300 s (inconclusive)")
+            core.check(p.returncode == 0, "real processes, %d batches, open-files limit %d: realign failed with status %d: %s",
+                       len(case["gaf"]) // case["batch"], case["nofile"], p.returncode, p.stderr.decode(errors="replace")[-300:])
+            text = core.read_text(d + "/out.gaf")
+            check_output(case, ("ok", None), text, ref, "real processes, %d batches" % (len(case["gaf"]) // case["batch"]))
+            return core.Result(True, ["real_processes", "many_batches"])
         if case.get("kind") == "real":
             res, text = rc.run_realign(case, d, platform=None, sub="real.gaf")
             check_output(case, res, text, ref, "real processes, cores=%d batch=%d" % (case["cores"], case["batch"]))
@@ -158,3 +178,15 @@ def enumerations(tier, shard, nshards):
                 yield c
 
         yield ("real multiprocessing: cores 1-3 x batch 1-2 on the 2-record input", real(), True)
+
+        def many():
+            n = 160 if tier == "quick" else 600
+            c = tiny_case(2, 3, 1)
+            c["gaf"] = [TINY_GAF[i % 2].replace("ra\t", "x%d\t" % i).replace("rb\t", "x%d\t" % i) for i in range(n)]
+            c["fasta"] = "".join(">x%d\n%s\n" % (i, "GTACGTAAGGCA" if i % 2 == 0 else "GGCAATTAC") for i in range(n))
+            c["kind"] = "real_many"
+            c["nofile"] = 64 if tier == "quick" else 128
+            yield c
+
+        yield ("real multiprocessing, %d one-record batches, cores=3, open-files limit lowered" % (160 if tier == "quick" else 600),
+               many(), True)
